@@ -194,6 +194,32 @@ func (tr *gtTr) assignedIn(nodes []ast.Node, env *venv) (keys, elems, whole map[
 					gtFail("taking an address (&) is outside the subset")
 				}
 			case *ast.CallExpr:
+				if name, kind, arg, ok := tr.bufferWrite(x, env); ok {
+					// a write into a local bytes.Buffer assigns the variable (its &b is not an address that escapes)
+					k := stKey{name, ""}
+					keys[k], whole[k] = true, true
+					if kind == "HTMLEscape" {
+						sub, _, _ := tr.assignedIn([]ast.Node{arg}, env)
+						for k2 := range sub {
+							keys[k2] = true
+						}
+						return false
+					}
+					return true
+				}
+				if pkg, fn, isLib := tr.libCall(x, env); isLib && pkg == "text/template" && fn == "HTMLEscape" && len(x.Args) == 2 {
+					if u, isAddr := unparen(x.Args[0]).(*ast.UnaryExpr); isAddr && u.Op == token.AND {
+						if _, isId := unparen(u.X).(*ast.Ident); isId {
+							// &b of a buffer declared inside the scanned statements (not visible here, so not state
+							// of the enclosing construct); the statement's own translation checks that b is one
+							sub, _, _ := tr.assignedIn([]ast.Node{x.Args[1]}, env)
+							for k2 := range sub {
+								keys[k2] = true
+							}
+							return false
+						}
+					}
+				}
 				for _, m := range tr.calleeMuts(x, env) {
 					keys[m] = true
 					elems[m] = true
